@@ -71,7 +71,40 @@ Definition parse_depth (limit : option Z) (ts : list tok) : res Z :=
   | Err e => Err e
   end.
 
+(* The length bound of parser.h next_token: every token fetched from the stream is counted, the
+   one that ends the expression included (end of input, or the first token the top-level
+   expression does not consume), and fetching more than T tokens is an error.  The count only
+   grows, so an expression is accepted iff the parse succeeds and consumed + 1 <= T. *)
+Definition parse_guarded (dlimit tlimit : option Z) (ts : list tok) : res Z :=
+  match parse_expr dlimit (3 * length ts + 3) 0 ts with
+  | Ok (_, m, rest) =>
+      let fetched := Z.of_nat (length ts) - Z.of_nat (length rest) + 1 in
+      if match tlimit with Some T => T <? fetched | None => false end
+      then Err EOther                                     (* "Expression is too long" *)
+      else Ok m
+  | Err e => Err e
+  end.
+
+(* tokens of an accepted expression that the parser consumed *)
+Definition consumed (dlimit : option Z) (ts : list tok) : Z :=
+  match parse_expr dlimit (3 * length ts + 3) 0 ts with
+  | Ok (_, _, rest) => Z.of_nat (length ts) - Z.of_nat (length rest)
+  | Err _ => 0
+  end.
+
+(* a plain numeric guard `if (n > limit) throw`: query nesting, query terms, roundto places *)
+Definition within_limit (limit : option Z) (n : Z) : bool :=
+  match limit with Some L => n <=? L | None => true end.
+
 (* n opening parentheses, a terminal, n closing ones *)
 Definition nest (n : nat) : list tok := repeat TLp n ++ TVal :: repeat TRp n.
+
+(* k + 1 terminals joined by k operators: 2 k + 1 tokens *)
+Fixpoint op_tail (k : nat) : list tok :=
+  match k with
+  | O => []
+  | S k' => TOp :: TVal :: op_tail k'
+  end.
+Definition chain (k : nat) : list tok := TVal :: op_tail k.
 
 Definition stack_frames (depth : Z) : Z := frames_per_level * (depth + 1).
